@@ -1,5 +1,123 @@
-import MW.Lemmas.ScriptClassify
-open MW MW.Model.Script MW.Lemmas.ScriptTok MW.Lemmas.ScriptTemplate MW.Lemmas.ScriptClassify
+/-
+  C16 helper lemmas, part 3: the txscript predicates as functions of the opcode shape, the class of
+  every script, and the readings of the wallet / the library / the API in terms of the byte-level template.
+-/
+import MW.Lemmas.ScriptTemplate
+namespace MW.Lemmas.ScriptClassify
+open MW MW.Model.Script MW.Lemmas.ScriptTok MW.Lemmas.ScriptTemplate
+
+
+@[simp] theorem OP_0_eq : OP_0 = 0 := rfl
+@[simp] theorem OP_DATA_8_eq : OP_DATA_8 = 0x08 := rfl
+@[simp] theorem OP_DATA_20_eq : OP_DATA_20 = 0x14 := rfl
+@[simp] theorem OP_DATA_22_eq : OP_DATA_22 = 0x16 := rfl
+@[simp] theorem OP_DATA_32_eq : OP_DATA_32 = 0x20 := rfl
+
+theorem idx_lt {α} (l : List α) (i : Nat) (h : i < l.length) : idx l i = .ok l[i] := by
+  unfold idx; rw [List.getElem?_eq_getElem h]
+
+def shapeWsh : List Pop → Bool
+  | [p0, p1] => p0.op == 0 && p1.op == 0x20
+  | _ => false
+def shapeStaking : List Pop → Bool
+  | [p0, p1, p2] => p0.op == 0 && p1.op == 0x20 && p2.op == 0x08
+  | _ => false
+def shapeBinding : List Pop → Bool
+  | [p0, p1, p2] => p0.op == 0 && p1.op == 0x20 && (p2.op == 0x14 || p2.op == 0x16)
+  | _ => false
+
+theorem templateShape_eq (pops : List Pop) :
+    templateShape pops = (shapeWsh pops || shapeStaking pops || shapeBinding pops) := by
+  match pops with
+  | [] => rfl
+  | [_] => rfl
+  | [_, _] => simp [templateShape, shapeWsh, shapeStaking, shapeBinding]
+  | [p0, p1, p2] =>
+    simp only [templateShape, shapeWsh, shapeStaking, shapeBinding]
+    cases (p0.op == 0) <;> cases (p1.op == 0x20) <;> cases (p2.op == 0x08) <;> rfl
+  | _ :: _ :: _ :: _ :: _ => rfl
+
+theorem isWitnessScriptHash_eq (pops : List Pop) : isWitnessScriptHash pops = .ok (shapeWsh pops) := by
+  unfold isWitnessScriptHash shapeWsh
+  match pops with
+  | [] => rfl
+  | [_] => rfl
+  | [p0, p1] =>
+    simp [idx, bind, Except.bind, pure, Except.pure]
+    by_cases h : p0.op = 0 <;> simp [h]
+  | _ :: _ :: _ :: _ => simp [pure, Except.pure]
+
+theorem isMultiSig_total (pops : List Pop) : ∃ b, isMultiSig pops = .ok b := by
+  unfold isMultiSig
+  by_cases h : pops.length < 4
+  · simp [h, pure, Except.pure]
+  · have h0 := idx_lt pops 0 (by omega)
+    have h1 := idx_lt pops (pops.length - 2) (by omega)
+    have h2 := idx_lt pops (pops.length - 1) (by omega)
+    have h3 : slice pops 1 (pops.length - 2) = .ok ((pops.drop 1).take (pops.length - 2 - 1)) := by
+      unfold slice; rw [if_pos (by omega)]
+    simp only [h, if_false, h0, h1, h2, h3, bind, Except.bind]
+    repeat' split
+    all_goals exact ⟨_, rfl⟩
+
+theorem isWitnessStakingScript_eq (pops : List Pop) : isWitnessStakingScript pops = .ok (shapeStaking pops) := by
+  unfold isWitnessStakingScript shapeStaking
+  match pops with
+  | [] => rfl
+  | [_] => rfl
+  | [_, _] => rfl
+  | [p0, p1, p2] =>
+    simp [idx, bind, Except.bind, pure, Except.pure]
+    by_cases h : p0.op = 0 <;> by_cases h' : p1.op = 0x20 <;> simp [h, h']
+  | _ :: _ :: _ :: _ :: _ => simp [pure, Except.pure]
+
+theorem isWitnessBindingScript_eq (pops : List Pop) : isWitnessBindingScript pops = .ok (shapeBinding pops) := by
+  unfold isWitnessBindingScript shapeBinding
+  match pops with
+  | [] => rfl
+  | [_] => rfl
+  | [_, _] => rfl
+  | [p0, p1, p2] =>
+    simp [idx, bind, Except.bind, pure, Except.pure]
+    by_cases h : p0.op = 0 <;> by_cases h' : p1.op = 0x20 <;> by_cases h'' : p2.op = 0x14 <;> simp [h, h', h'']
+  | _ :: _ :: _ :: _ :: _ => simp [pure, Except.pure]
+
+theorem isNullData2_total (pops : List Pop) : ∃ b, isNullData2 pops = .ok b := by
+  unfold isNullData2
+  match pops with
+  | [] => exact ⟨_, rfl⟩
+  | [_] => exact ⟨_, rfl⟩
+  | [p0, p1] =>
+    simp only [idx, bind, Except.bind]
+    repeat' split
+    all_goals first | exact ⟨_, rfl⟩ | simp_all
+  | _ :: _ :: _ :: _ => simp [pure, Except.pure]
+
+theorem isNullData_total (pops : List Pop) : ∃ b, isNullData pops = .ok b := by
+  unfold isNullData
+  match pops with
+  | [] => simpa using isNullData2_total ([] : List Pop)
+  | [p0] =>
+    simp only [idx, bind, Except.bind]
+    repeat' split
+    all_goals first | exact ⟨_, rfl⟩ | exact isNullData2_total _ | simp_all
+  | _ :: _ :: _ => simpa using isNullData2_total _
+
+def nonTemplate (c : Class) : Prop := c = .multiSig ∨ c = .nullData ∨ c = .nonStandard
+
+theorem typeOfScript_other (pops : List Pop) (h : templateShape pops = false) :
+    ∃ c, typeOfScript pops = .ok c ∧ nonTemplate c := by
+  unfold typeOfScript
+  rw [isWitnessScriptHash_eq, isWitnessStakingScript_eq, isWitnessBindingScript_eq]
+  obtain ⟨bm, hm⟩ := isMultiSig_total pops
+  obtain ⟨bn, hn⟩ := isNullData_total pops
+  rw [hm, hn]
+  rw [templateShape_eq] at h
+  simp only [Bool.or_eq_false_iff] at h
+  rw [h.1.1, h.1.2, h.2]
+  simp only [bind, Except.bind, pure, Except.pure]
+  cases bm <;> cases bn <;> simp [nonTemplate]
+
 open Spec.Script (template Template)
 
 theorem parseScript_of_toks (s : Bytes) (pops : List Pop) (h : Toks s pops) : parseScript s = .ok pops := by
@@ -272,3 +390,5 @@ theorem extractAddressInfos_spec (pkValid : Bytes → Bool) (s : Bytes) :
     by_cases hlt : legalTarget22 t = true
     · simp [hc, hx, bind, Except.bind, idx, pure, Except.pure, targetAddrs, e, hlt, Addr.scriptAddress, targetView]
     · simp [hc, hx, bind, Except.bind, idx, pure, Except.pure, targetAddrs, e, hlt, fail]
+
+end MW.Lemmas.ScriptClassify
